@@ -209,8 +209,70 @@ struct message_ops
     std::function<std::uint64_t(char*, std::size_t)> header_bl;
 };
 
+struct cursor_ret
+{
+    int what = 0; // 0 none, 1 value, 2 view, 3 group, 4 data
+    bytes value;
+    std::ptrdiff_t addr = -1;
+    std::uint64_t n = 0;
+};
+constexpr std::ptrdiff_t cur_unset = -1000000;
+// cursor-based access to a direct member of a level through wrapper w:
+// 0 plain, 1 init, 2 dont_move, 3 init_dont_move, 4 skip
+struct member_ops
+{
+    std::function<cursor_ret(char*, std::size_t, ipath, int, std::ptrdiff_t&)> cget;
+    std::function<void(char*, std::size_t, ipath, int, std::ptrdiff_t&, const bytes&)> cset;
+};
+
+template<typename T>
+typename std::enable_if<
+    std::is_enum<T>::value || sbepp::is_required_type<T>::value
+        || sbepp::is_optional_type<T>::value || sbepp::is_set<T>::value,
+    cursor_ret>::type
+    cret(char*, T v)
+{
+    cursor_ret r;
+    r.what = 1;
+    r.value = enc(v);
+    return r;
+}
+template<typename T>
+typename std::enable_if<
+    sbepp::is_composite<T>::value || sbepp::is_array_type<T>::value,
+    cursor_ret>::type
+    cret(char* p, T v)
+{
+    cursor_ret r;
+    r.what = 2;
+    r.addr = sbepp::addressof(v) - p;
+    return r;
+}
+template<typename T>
+typename std::enable_if<sbepp::is_group<T>::value, cursor_ret>::type
+    cret(char* p, T v)
+{
+    cursor_ret r;
+    r.what = 3;
+    r.addr = sbepp::addressof(v) - p;
+    r.n = static_cast<std::uint64_t>(v.size());
+    return r;
+}
+template<typename T>
+typename std::enable_if<sbepp::is_data<T>::value, cursor_ret>::type
+    cret(char* p, T v)
+{
+    cursor_ret r;
+    r.what = 4;
+    r.addr = sbepp::addressof(v) - p;
+    for(auto it = v.begin(); it != v.end(); ++it)
+        r.value.push_back(static_cast<unsigned char>(*it));
+    return r;
+}
+
 struct registry
 {
+    std::map<std::string, member_ops> members;
     std::map<std::string, leaf_ops> leaves;
     std::map<std::string, level_ops> levels;
     std::map<std::string, group_ops> groups;
@@ -249,6 +311,13 @@ struct reg_data
     reg_data(const char* k, data_ops o)
     {
         registry::get().data[k] = std::move(o);
+    }
+};
+struct reg_member
+{
+    reg_member(const char* k, member_ops o)
+    {
+        registry::get().members[k] = std::move(o);
     }
 };
 struct reg_message
@@ -332,6 +401,73 @@ void assign_data(D d, const bytes& b)
             }})
 
 #define VH_REG_FIELD(KEY, M, LV, NAME, ISCONST)
+
+#define VH_CGET_BODY(M, LV, NAME)                                             \
+    [](char* p, std::size_t n, ::vh::ipath ip, int w, std::ptrdiff_t& cur)    \
+        -> ::vh::cursor_ret                                                   \
+    {                                                                         \
+        auto lv = LV(M{p, n}, ip);                                            \
+        ::sbepp::cursor<VH_BYTE> c;                                           \
+        c.pointer() = (cur == ::vh::cur_unset) ? nullptr : p + cur;           \
+        ::vh::cursor_ret r;                                                   \
+        switch(w)                                                             \
+        {                                                                     \
+        case 0:                                                               \
+            r = ::vh::cret(p, lv.NAME(c));                                    \
+            break;                                                            \
+        case 1:                                                               \
+            r = ::vh::cret(p, lv.NAME(::sbepp::cursor_ops::init(c)));         \
+            break;                                                            \
+        case 2:                                                               \
+            r = ::vh::cret(p, lv.NAME(::sbepp::cursor_ops::dont_move(c)));    \
+            break;                                                            \
+        case 3:                                                               \
+            r = ::vh::cret(                                                   \
+                p, lv.NAME(::sbepp::cursor_ops::init_dont_move(c)));          \
+            break;                                                            \
+        default:                                                              \
+            lv.NAME(::sbepp::cursor_ops::skip(c));                            \
+        }                                                                     \
+        cur = c.pointer() ? c.pointer() - p : ::vh::cur_unset;                \
+        return r;                                                             \
+    }
+
+#define VH_CSET_BODY(M, LV, NAME)                                             \
+    [](char* p,                                                               \
+       std::size_t n,                                                         \
+       ::vh::ipath ip,                                                        \
+       int w,                                                                 \
+       std::ptrdiff_t& cur,                                                   \
+       const ::vh::bytes& b)                                                  \
+    {                                                                         \
+        auto lv = LV(M{p, n}, ip);                                            \
+        ::sbepp::cursor<VH_BYTE> c;                                           \
+        c.pointer() = (cur == ::vh::cur_unset) ? nullptr : p + cur;           \
+        auto val = ::vh::dec<decltype(lv.NAME())>(b);                         \
+        switch(w)                                                             \
+        {                                                                     \
+        case 0:                                                               \
+            lv.NAME(val, c);                                                  \
+            break;                                                            \
+        case 1:                                                               \
+            lv.NAME(val, ::sbepp::cursor_ops::init(c));                       \
+            break;                                                            \
+        case 2:                                                               \
+            lv.NAME(val, ::sbepp::cursor_ops::dont_move(c));                  \
+            break;                                                            \
+        default:                                                              \
+            lv.NAME(val, ::sbepp::cursor_ops::init_dont_move(c));             \
+        }                                                                     \
+        cur = c.pointer() ? c.pointer() - p : ::vh::cur_unset;                \
+    }
+
+#define VH_REG_CMEMBER_scalar(KEY, M, LV, NAME)                               \
+    static ::vh::reg_member VH_CAT(vh_r_, __COUNTER__)(                       \
+        KEY,                                                                  \
+        ::vh::member_ops{VH_CGET_BODY(M, LV, NAME), VH_CSET_BODY(M, LV, NAME)})
+#define VH_REG_CMEMBER_view(KEY, M, LV, NAME)                                 \
+    static ::vh::reg_member VH_CAT(vh_r_, __COUNTER__)(                       \
+        KEY, ::vh::member_ops{VH_CGET_BODY(M, LV, NAME), nullptr})
 
 #define VH_REG_GROUP(KEY, M, LV, NAME)                                        \
     static ::vh::reg_group VH_CAT(vh_r_, __COUNTER__)(                        \
